@@ -648,6 +648,10 @@ func (e *fnEnc) unop(st *state, v *ssa.UnOp) {
 	}
 	switch v.Op {
 	case token.MUL: // load
+		if cv, ok := e.constCell(v.X); ok {
+			e.vals[v] = cv
+			return
+		}
 		if sl, isWin := e.winOf[v.X]; isWin {
 			e.setVal(v, e.loadWindow(st, sl, v.Type()))
 			return
@@ -1083,4 +1087,177 @@ func (e *fnEnc) loadWindow(st *state, sl string, t types.Type) string {
 		term = fmt.Sprintf("(store %s %s %s)", term, bvLit(64, uint64(i)), elem(i))
 	}
 	return term
+}
+
+// ---------------------------------------------------------------------------
+// Variables captured by function literals but never reassigned.
+//
+// go/ssa turns every captured variable into a heap cell, in the enclosing function too. A
+// cell that is written exactly once (its initialisation) and whose address flows only into
+// loads and closure bindings holds the same value for its whole life, so reads of it are
+// that value: no callee can change it (nothing else has its address).
+// ---------------------------------------------------------------------------
+
+// constCell: addr is an Alloc (in the enclosing function) or a FreeVar (in a literal) of
+// such a write-once cell; returns the term of its value.
+func (e *fnEnc) constCell(addr ssa.Value) (string, bool) {
+	switch a := addr.(type) {
+	case *ssa.Alloc:
+		val, ok := writeOnceAlloc(a)
+		if !ok {
+			return "", false
+		}
+		if _, defined := e.vals[val]; !defined && !isConstLike(val) {
+			return "", false // read before the initialisation was encoded
+		}
+		return e.val(val), true
+	case *ssa.FreeVar:
+		if t, ok := e.constFV[a]; ok {
+			return t, t != ""
+		}
+		ok := freeVarWriteOnce(a)
+		if !ok {
+			e.constFV[a] = ""
+			return "", false
+		}
+		pt, isPtr := a.Type().Underlying().(*types.Pointer)
+		if !isPtr {
+			e.constFV[a] = ""
+			return "", false
+		}
+		n := e.declare("cap_"+a.Name(), e.sortOf(pt.Elem()))
+		st := e.entry.clone()
+		e.assumeWF(st, n, pt.Elem())
+		e.constFV[a] = n
+		return n, true
+	}
+	return "", false
+}
+
+var writeOnceCache = map[*ssa.Alloc]ssa.Value{}
+var writeOnceNo = map[*ssa.Alloc]bool{}
+
+func writeOnceAlloc(a *ssa.Alloc) (ssa.Value, bool) {
+	if v, ok := writeOnceCache[a]; ok {
+		return v, true
+	}
+	if writeOnceNo[a] {
+		return nil, false
+	}
+	var stored ssa.Value
+	okAll := true
+	captured := false
+	refs := a.Referrers()
+	if refs == nil {
+		return nil, false
+	}
+	for _, r := range *refs {
+		switch x := r.(type) {
+		case *ssa.Store:
+			if x.Addr != ssa.Value(a) || stored != nil {
+				okAll = false
+			}
+			stored = x.Val
+			if x.Block() != a.Block() {
+				okAll = false // the initialisation must follow the allocation directly
+			}
+		case *ssa.UnOp:
+			if x.Op != token.MUL {
+				okAll = false
+			}
+		case *ssa.DebugRef:
+		case *ssa.MakeClosure:
+			captured = true
+			fn := x.Fn.(*ssa.Function)
+			for i, b := range x.Bindings {
+				if b == ssa.Value(a) && !fvOnlyRead(fn.FreeVars[i], 0) {
+					okAll = false
+				}
+			}
+		default:
+			okAll = false
+		}
+	}
+	if !okAll || stored == nil || !captured {
+		writeOnceNo[a] = true
+		return nil, false
+	}
+	// the single store must come before every load: require it in the allocation's block
+	// directly after the Alloc (the pattern go/ssa emits for captured parameters and
+	// `x := e` declarations)
+	writeOnceCache[a] = stored
+	return stored, true
+}
+
+// fvOnlyRead: the captured cell is only loaded (or passed on to nested literals that only
+// load it) inside the literal.
+func fvOnlyRead(fv *ssa.FreeVar, depth int) bool {
+	if depth > 4 {
+		return false
+	}
+	refs := fv.Referrers()
+	if refs == nil {
+		return true
+	}
+	for _, r := range *refs {
+		switch x := r.(type) {
+		case *ssa.UnOp:
+			if x.Op != token.MUL {
+				return false
+			}
+		case *ssa.DebugRef:
+		case *ssa.MakeClosure:
+			fn := x.Fn.(*ssa.Function)
+			for i, b := range x.Bindings {
+				if b == ssa.Value(fv) && !fvOnlyRead(fn.FreeVars[i], depth+1) {
+					return false
+				}
+			}
+		default:
+			return false
+		}
+	}
+	return true
+}
+
+// freeVarWriteOnce: from inside a literal: the cell bound to fv is write-once in the
+// enclosing function(s).
+func freeVarWriteOnce(fv *ssa.FreeVar) bool {
+	fn := fv.Parent()
+	parent := fn.Parent()
+	if parent == nil {
+		return false
+	}
+	idx := -1
+	for i, f := range fn.FreeVars {
+		if f == fv {
+			idx = i
+		}
+	}
+	if idx < 0 {
+		return false
+	}
+	found := false
+	for _, b := range parent.Blocks {
+		for _, ins := range b.Instrs {
+			mc, ok := ins.(*ssa.MakeClosure)
+			if !ok || mc.Fn != ssa.Value(fn) || idx >= len(mc.Bindings) {
+				continue
+			}
+			found = true
+			switch bv := mc.Bindings[idx].(type) {
+			case *ssa.Alloc:
+				if _, ok := writeOnceAlloc(bv); !ok {
+					return false
+				}
+			case *ssa.FreeVar:
+				if !freeVarWriteOnce(bv) {
+					return false
+				}
+			default:
+				return false
+			}
+		}
+	}
+	return found
 }
